@@ -2,6 +2,7 @@ import OjgVerif.Props.C17
 import OjgVerif.Match.LemmasTokChunks
 import OjgVerif.Match.LemmasTokRef
 import OjgVerif.Match.LemmasEventsInj
+import OjgVerif.Gen.MatchFacts
 /-! # C17 — chunk independence of the callbacks as a PROVED clause
 
 `Match/Tokenizer.lean` defines the token-event sequence of `oj.Tokenizer` as a function of the run of
@@ -221,5 +222,13 @@ theorem empty_first_read_bom :
   · rw [tokEvents_single, tokEvents_eq_ref C01.ojTables_ok]; rfl
   · have : tokEvents ojTables (tokCfg true) [[], bomText] = evAfterBom ojTables (tokCfg true) [bomText] := rfl
     rw [this, evAfterBom_eq_ref C01.ojTables_ok]; rfl
+
+/-- Regression tripwire for the flag `emptyFirstReadNoBom` (as `dev_cur_matches_source`): the flag is
+on exactly while the byte-order-mark top-up loop of `(*oj.Tokenizer).Load` still demands `0 < cnt`
+(its condition, regenerated from oj/tokenizer.go on every run by tools/extract/match.go). Applying
+the proposed fix `C17_empty_first_read_bom` without switching the flag off breaks this proof. -/
+theorem emptyFirstRead_matches_source :
+    emptyFirstReadNoBom = (Gen.MatchFacts.ojLoadTopUpCond == "err == nil && 0 < cnt && cnt < 4 && buf[0] == 0xEF") := by
+  decide
 
 end OjgVerif.C17
